@@ -25,6 +25,7 @@ case "$ID" in
   C12) TARGETS="c12_instance"; MAXLEN=2048 ;;
   C08) TARGETS="c08_subset_cmap"; MAXLEN=768 ;;
   C13) TARGETS="c13_norm"; MAXLEN=320 ;;
+  C15) TARGETS="c15_roundtrip"; MAXLEN=1536 ;;
   C17) TARGETS="c17_text"; MAXLEN=256 ;;
   *) exit 0 ;;
 esac
